@@ -43,8 +43,14 @@ type lockAnalysis struct {
 	calls     []callSite
 	nested    []string // "func: holds A then takes B"
 	blockOps  []string // blocking operations (channel send/recv) performed while a lock is held
+	storeOps  []string // "func:Method:locks held" for every call x.store.Get/Set/Delete
+	lockCount map[string]int  // "func:type" -> number of Lock()/RLock() acquisitions in the function body
+	deferred  map[string]bool // "func:type" -> released by a deferred Unlock (held to the end)
 	selfLocks map[string]bool
 }
+
+// fields holding a container that is mutated by every method call on it
+var mutatingContainers = map[string]bool{"httpLRUCache.cache": true}
 
 // state while walking one function
 type fnState struct {
@@ -138,6 +144,12 @@ func (la *lockAnalysis) stmt(st *fnState, s ast.Stmt) {
 	switch x := s.(type) {
 	case *ast.ExprStmt:
 		if v, op := la.lockCall(st, x.X); v != "" {
+			if op == "Lock" || op == "RLock" {
+				if la.lockCount == nil {
+					la.lockCount = map[string]int{}
+				}
+				la.lockCount[st.name+":"+st.vars[v]]++
+			}
 			switch op {
 			case "Lock":
 				la.noteNesting(st, v)
@@ -156,6 +168,10 @@ func (la *lockAnalysis) stmt(st *fnState, s ast.Stmt) {
 		la.expr(st, x.X, false)
 	case *ast.DeferStmt:
 		if v, op := la.lockCall(st, x.Call); v != "" && (op == "Unlock" || op == "RUnlock") {
+			if la.deferred == nil {
+				la.deferred = map[string]bool{}
+			}
+			la.deferred[st.name+":"+st.vars[v]] = true
 			return // stays held to the end of the function
 		}
 		// a deferred closure runs at function exit: analysed with what is held then (nothing
@@ -297,6 +313,36 @@ func (la *lockAnalysis) expr(st *fnState, e ast.Expr, write bool) {
 		}
 		la.expr(st, x.X, false)
 	case *ast.CallExpr:
+		// call of the persistent store: which locks are held around it
+		if sel, ok := x.Fun.(*ast.SelectorExpr); ok {
+			if inner, ok := sel.X.(*ast.SelectorExpr); ok && inner.Sel.Name == "store" {
+				switch sel.Sel.Name {
+				case "Get", "Set", "Delete":
+					var held []string
+					for h := range st.heldW {
+						held = append(held, st.vars[h])
+					}
+					for h := range st.heldR {
+						held = append(held, st.vars[h]+"(r)")
+					}
+					sort.Strings(held)
+					la.storeOps = append(la.storeOps, fmt.Sprintf("%s:%s:%s", st.name, sel.Sel.Name, strings.Join(held, "+")))
+				}
+			}
+		}
+		// method call on a tracked field that is a container without its own synchronisation
+		// (groupcache's lru.Cache: even Get relinks the recency list): a write of that field
+		if sel, ok := x.Fun.(*ast.SelectorExpr); ok {
+			if inner, ok := sel.X.(*ast.SelectorExpr); ok {
+				if id, ok := inner.X.(*ast.Ident); ok {
+					if tn := st.vars[id.Name]; tn != "" && la.tracked[tn][inner.Sel.Name] && mutatingContainers[tn+"."+inner.Sel.Name] {
+						la.accesses = append(la.accesses, access{file: la.file, fn: st.name, typ: tn, field: inner.Sel.Name, write: true,
+							lockW: st.heldW[id.Name], lockR: st.heldR[id.Name], fresh: st.fresh[id.Name], afterRecv: st.afterRecv,
+							line: fset.Position(x.Pos()).Line})
+					}
+				}
+			}
+		}
 		// method call on a tracked variable: record the call site
 		if sel, ok := x.Fun.(*ast.SelectorExpr); ok {
 			if id, ok := sel.X.(*ast.Ident); ok {
@@ -442,4 +488,17 @@ func factsLocks() {
 	defStrList("lockNesting", la.nested)
 	sort.Strings(la.blockOps)
 	defStrList("blockingUnderLock", la.blockOps)
+	sort.Strings(la.storeOps)
+	defStrList("storeCalls", la.storeOps)
+	// critical sections per function: "func:type:acquisitions:deferred|explicit"
+	var secs []string
+	for k, n := range la.lockCount {
+		rel := "explicit"
+		if la.deferred[k] {
+			rel = "deferred"
+		}
+		secs = append(secs, fmt.Sprintf("%s:%d:%s", k, n, rel))
+	}
+	sort.Strings(secs)
+	defStrList("lockSections", secs)
 }
